@@ -21,7 +21,7 @@ open Infretis.Geom
 
 /-- a system used for the non-vacuity examples: 7 atoms, dyadic coordinates, 4×8×4 box -/
 def exSys : Sys :=
-  { pos := [⟨0, 0, 0⟩, ⟨3, 1 / 2, 1 / 4⟩, ⟨1, 2, 3⟩, ⟨1 / 2, 5, 7 / 2⟩, ⟨-1, 1, 2⟩, ⟨2, -3, 1⟩, ⟨1, 1, -2⟩]
+  { pos := [⟨0, 0, 0⟩, ⟨3, 1 / 2, 1 / 4⟩, ⟨1 / 2, 2, 3⟩, ⟨1 / 2, 5, 7 / 2⟩, ⟨-1, 1, 3 / 2⟩, ⟨5 / 2, -3, 1⟩, ⟨1, 1, -3 / 2⟩]
     vel := [⟨1, 0, 0⟩, ⟨0, 1, 0⟩, ⟨0, 0, 1⟩, ⟨1, 1, 1⟩, ⟨-1, 2, 0⟩, ⟨0, 0, 0⟩, ⟨1 / 2, 0, 1⟩]
     box := some [4, 8, 4] }
 
@@ -61,7 +61,7 @@ theorem translation_invariant (var : Variant) (op : OP) (h : op.relative = true)
   | puckering i0 i1 i2 i3 i4 i5 p => simp only [value, puckering_translate]
 
 example : (OP.dihedral 0 1 2 3 true).relative = true ∧
-    value .asIs (.dihedral 0 1 2 3 true) exSys = .ok [-13 / 8, -325 / 16, 197 / 16] := by
+    value .asIs (.dihedral 0 1 2 3 true) exSys = .ok [-15 / 4, -447 / 32, 97 / 16] := by
   constructor <;> decide +kernel
 
 /-! ### shifting atoms by box vectors -/
@@ -165,8 +165,8 @@ theorem velocity_reversal_sign (var : Variant) (op : OP) (s : Sys) :
   | dihedral i0 i1 i2 i3 p => rfl
   | puckering i0 i1 i2 i3 i4 i5 p => rfl
 
-example : value .asIs (.distancevel 0 1 true) exSys = .ok [-1 / 2, 21 / 16] ∧
-    value .asIs (.distancevel 0 1 true) (reverseVel exSys) = .ok [1 / 2, 21 / 16] := by
+example : value .asIs (.distancevel 0 1 true) exSys = .ok [3 / 2, 21 / 16] ∧
+    value .asIs (.distancevel 0 1 true) (reverseVel exSys) = .ok [-3 / 2, 21 / 16] := by
   constructor <;> decide +kernel
 
 /-! ### 3- and 9-component boxes -/
@@ -191,7 +191,7 @@ theorem box3_box9_agree (op : OP) (s : Sys) (x y z : ℚ) :
   box3_boxN_agree_repaired op s x y z _
 
 example : value .repaired (.distancevel 0 1 true) { exSys with box := some [4, 8, 4, 0, 0, 0, 0, 0, 0] }
-    = .ok [-1 / 2, 21 / 16] := by decide +kernel
+    = .ok [3 / 2, 21 / 16] := by decide +kernel
 
 /-- **The code as it is violates the 3/9 agreement**: `Distancevel.calculate` hands the whole box to
     `pbc_dist_coordinate`, whose loop over the *box* entries indexes `distance[3]`.
